@@ -133,6 +133,11 @@ def apply_op(mab, op, catch=True):
         if name == "predict_expectations":
             return canon("predict_expectations",
                          mab.predict_expectations(op[1]) if op[1] is not None else mab.predict_expectations())
+        if name in ("predict_series", "predict_expectations_series"):
+            # [name, values]: the query given as a pandas Series (one feature: one row per value; else one row)
+            import pandas as pd
+            kind = name[:-7]
+            return canon(kind, getattr(mab, kind)(pd.Series(list(op[1]), index=range(300, 300 + len(op[1])))))
         if name in ("predict_tiled", "predict_expectations_tiled"):
             # [name, rows, times]: the rows repeated `times` times (large batches without large plans)
             big = [list(r) for _ in range(op[2]) for r in op[1]]
@@ -163,7 +168,8 @@ def run_ops(mab, ops, catch=True):
     return [apply_op(mab, op, catch) for op in ops]
 
 
-QUERY_OPS = ("predict", "predict_expectations", "cold_arms", "arms")
+QUERY_OPS = ("predict", "predict_expectations", "cold_arms", "arms", "predict_series",
+             "predict_expectations_series", "predict_tiled", "predict_expectations_tiled")
 TRAIN_OPS = ("fit", "partial_fit")
 
 
